@@ -456,7 +456,7 @@ def c09(tier):
     tasks = wf_corpus(tier, Q(tier, "six", "wide"))
     t2, _ = soup_tasks("full", 2, "six", sample_every=Q(tier, 1999, 499))
     tasks += t2 + splice_tasks(Q(tier, 2000, 30000), "six", sample_every=Q(tier, 199, 997)) + walk_tasks(Q(tier, 5000, 100000), "six", sample_every=997)
-    c.explore(tasks, "le", ["C09"], sample_cap=Q(tier, 150, 800))
+    c.explore(tasks, "le", ["C09"], sample_cap=Q(tier, 150, 300))
     # through the command line: a file that differs from the result only in its terminators is still rewritten
     import cli
     build(("cli",))
